@@ -209,6 +209,46 @@ def rule_d(ctx):
                 o = st.origins(s.args()[0], s)
                 ok = bool(o) and all(x[0] == "call" and x[2] in helpers for x in o)
                 ctx.ob("executed-action-from-helper|%s" % last_seg(s.callee), ok, "every executed action was returned by the pull helper", [s])
+    rule_d_must_pass(ctx)
+
+
+def rule_d_must_pass(ctx):
+    """Must-pass-through side of the execution path (added-code changes: an early return / fast path in the stepping function).
+    pulled -> handed to the executor -> executor run, on every path."""
+    P = ctx.prog
+    helpers = set(b.name for b in pull_helpers(P))
+    SPAWN_A = "simulation::scheduler::Action::spawn_and_forget"
+    INTO_F = "simulation::scheduler::Action::into_future"
+    SEQ_NEW = "util::seq_futures::SeqFuture::new"
+    SEQ_PUSH = "util::seq_futures::SeqFuture::push"
+    for st in c01.stepping_fns(P):
+        hcalls = [s for s in st.calls() if s.callee in helpers]
+        spawn_a = list(st.calls("^" + SPAWN_A.replace("::", "::") + "$"))
+        into_f = list(st.calls("^" + INTO_F + "$"))
+        pushes = list(st.calls("^" + SEQ_PUSH + "$"))
+        seq_new = list(st.calls("^" + SEQ_NEW + "$"))
+        spawn_e = [s for s in st.calls(r"executor::Executor::spawn_and_forget$")]
+        runs = list(st.calls(K.SIM_RUN))
+        oos = list(st.aggregates(adt="simulation::ExecutionError", variant="OutOfSync"))
+        if not (hcalls and spawn_a and into_f and pushes and seq_new and spawn_e and runs):
+            ctx.missing("execution path sites in %s (helper calls %d, Action::spawn %d, into_future %d, push %d, SeqFuture::new %d, Executor::spawn %d, run %d)" % (
+                st.name, len(hcalls), len(spawn_a), len(into_f), len(pushes), len(seq_new), len(spawn_e), len(runs)))
+            continue
+        consumers = spawn_a + into_f
+        for h in hcalls:
+            leak = st.path_exists_to_return(h, avoiding=consumers) or any(st.can_reach(h, h2, avoiding=consumers) for h2 in hcalls)
+            ctx.ob("pulled-action-consumed|%s" % st.name, not leak,
+                   "an action returned by the pull helper is spawned or chained on every path (no return and no further pull before that): a pulled "
+                   "action that is dropped never runs", [h])
+        for f in into_f:
+            leak = st.path_exists_to_return(f, avoiding=pushes) or any(st.can_reach(f, h2, avoiding=pushes) for h2 in hcalls)
+            ctx.ob("chained-future-pushed|%s" % st.name, not leak, "the future of a chained action is pushed into the sequence on every path", [f])
+        for n in seq_new:
+            ctx.ob("sequence-spawned|%s" % st.name, not st.path_exists_to_return(n, avoiding=spawn_e),
+                   "a sequence of same-origin actions is handed to the executor on every path", [n])
+        for sp in spawn_a + spawn_e:
+            ctx.ob("spawned-then-run|%s" % st.name, not st.path_exists_to_return(sp, avoiding=runs + oos),
+                   "once an action is spawned every path to a return runs the executor (except the OutOfSync failure)", [sp])
 
 
 def rule_e(ctx):
